@@ -57,6 +57,8 @@ fn fst2(p: (int32, int32)) -> int32 { p.0 }
 fn dbl(x: int32) -> int32 { x * 2 }
 fn pick(n: int32) -> (int32) -> int32 { let _ = string_println("pick"); if n > 0 { inc3 } else { dbl } }
 fn bgw() -> unit { string_println("bgw") }
+fn mk_add(n: int32) -> (int32) -> int32 { let m = n + 1; |x: int32| x + m }
+fn mk_pair(n: int32) -> ((int32) -> int32, () -> int32) { let c = ref(n); (|d: int32| { let _ = ref_set(c, ref_get(c) + d); ref_get(c) }, || ref_get(c)) }
 """
 
 # features: name -> (statements, int32 expression) over `k`; local names start with q
@@ -86,6 +88,8 @@ FEATURES = {
     "closure_ref": ("let qr = ref(k); let qf = |qy: int32| { let _ = ref_set(qr, ref_get(qr) + qy); ref_get(qr) };", "qf(1) + qf(2)"),
     "closure_nested": ("let qf = |qy: int32| { let qg = |qz: int32| qz * qy + k; qg(2) };", "qf(3)"),
     "closure_field": ('let qo = Ops { tag: "t", inc: |qy: int32| qy + k, get: || k * 2 }; let qi = qo.inc; let qg = qo.get;', "qi(1) + qg()"),
+    "closure_returned": ("let qf = mk_add(k); let qf2 = mk_add(10);", "qf(1) + qf2(k) + qf(2)"),
+    "closure_returned_pair": ("let qp: ((int32) -> int32, () -> int32) = mk_pair(k); let qi = qp.0; let qg = qp.1; let _ = qi(2);", "qg() + qi(1)"),
     "fn_value": ("let qg = inc3;", "qg(k) + twice(inc3, k)"),
     "ref": ("let qr = ref(k); let _ = ref_set(qr, ref_get(qr) + 1);", "ref_get(qr)"),
     "vec": ("let qv: Vec[int32] = vec_new(); let qv = vec_push(vec_push(qv, k), 9);", "vec_get(qv, 0) + vec_len(qv)"),
